@@ -158,6 +158,10 @@ def ep_gate(prog: Program) -> RuleResult:
         # the result for a decided left: emitted once per left result
         decided = [e for e in s.emissions if any(_left_flag_guard(g, left_ids) is (not want) for g in e.guards) and not (set(e.bindings.may) - {"P"} - left_ids - {f"v:{x}" for x in left_ids})]
         ok = len(decided) == 1 and set(decided[0].loops) == left_ids and len(decided[0].loops) == len(left_ids) and left_ids <= decided[0].bindings.must
+        # ... and under no further condition: whether someone upstream "wants" the result is not this node's call (and must not be memoised on it)
+        extra = [g for e in decided for g in e.guards if _left_flag_guard(g, left_ids) is None]
+        if ok and extra:
+            ok = False
         own = c.methods.get("_evaluate__")
         if not decided and own is not None and any(isinstance(x, ast.Call) and isinstance(x.func, ast.Attribute) and x.func.attr == "_evaluate__" and src(x.func.value) == "super()" for x in ast.walk(own.node)):
             # a selector that re-emits the results of its (checked) base evaluation one for one
@@ -168,7 +172,8 @@ def ep_gate(prog: Program) -> RuleResult:
         r.check(
             ok, key + "#decided-left-emitted-once", f"{decided[0].module}:{decided[0].lineno}" if decided else loc, "",
             f"a {'false' if is_and else 'true'} left result is emitted exactly once with its bindings",
-            f"a {'false' if is_and else 'true'} left result is emitted {len(decided)} time(s) (needed: once, with the left result's bindings)",
+            f"a {'false' if is_and else 'true'} left result is emitted {len(decided)} time(s) (needed: once, with the left result's bindings)"
+            + (f", and only under the further condition(s) {[str(g)[:80] for g in extra]}: an enclosing else-if never learns that the operand failed for that binding" if extra else ""),
         )
     return r
 
